@@ -88,6 +88,71 @@ def fresh(text):
     return _fresh_cache[text]
 
 
+COLD_PAIRS = [("f(true, null) and not $x or 1 mod 2", "g(false) or null in [true] and not 2"),
+              ("x.y(1, 'a b') >= 2.5", "not true and f(null, 'c d')"),
+              ("1 +", "a or not b mod 3"),
+              ("true # 1", "null and f(true)")]
+
+
+def cold_preemption(rep, quick, rng):
+    """First parse on a cold engine, preempted at one line of the library's own parsing code (lexer / parser / engine
+    modules) while a second thread parses another text completely on the same engine: every preemption point in thorough,
+    a sample in quick.  In model terms these are interleaving points inside one token-fetch step of EngineParse.tla; the
+    specification says the step touches nothing another parse can see, so both results must be the fresh-engine ones."""
+    import os
+    import yaql
+    base = os.path.dirname(os.path.abspath(yaql.__file__))
+    ran = 0
+
+    def parse_with_preemption(a, b, k):
+        eng = yaql.YaqlFactory().create()
+        st = {'n': 0, 'fired': False, 'b': None}
+
+        def local(frame, event, arg):
+            if event == 'line':
+                st['n'] += 1
+                if st['n'] == k and not st['fired']:
+                    st['fired'] = True
+                    sys.settrace(None)
+
+                    def body():
+                        st['b'] = outcome(lambda: eng(b))
+                    th = threading.Thread(target=body)
+                    th.start()
+                    th.join()
+                    sys.settrace(tracer)
+            return local
+
+        def tracer(frame, event, arg):
+            if frame.f_code.co_filename.startswith(base):
+                return local
+            return None
+        sys.settrace(tracer)
+        try:
+            ra = outcome(lambda: eng(a))
+        finally:
+            sys.settrace(None)
+        return ra, st['b'], st['n']
+    for a, b in COLD_PAIRS[:(2 if quick else len(COLD_PAIRS))]:
+        for x, y in ((a, b), (b, a)):
+            _, _, n = parse_with_preemption(x, y, -1)
+            points = list(range(1, n + 1))
+            if quick and len(points) > 45:
+                # lazily initialised state is written early in the first parse: the first lines densely, the rest sampled
+                points = points[:25] + sorted(rng.sample(points[25:], 20))
+            for k in points:
+                ra, rb, _ = parse_with_preemption(x, y, k)
+                ran += 1
+                rep.evaluations += 2
+                for t, got in ((x, ra), (y, rb)):
+                    if got is not None and got != fresh(t):
+                        rep.violation('C01/cold-preemption/%s' % fresh(t)[0],
+                                      'cold engine: parse of %r preempted at library line %d of %d by a complete parse of %r: %r gave %r, fresh engine gives %r' % (
+                                          x, k, n, y, t, got, fresh(t)), {'mode': 'cold', 'first': x, 'second': y, 'line': k})
+    rep.extra['cold_preemption_runs'] = ran
+    return ran
+
+
 def gated(gate):
     def maker(orig):
         def wrapper(self, *a, **k):
@@ -310,6 +375,7 @@ def run(rep, tier, seed, keep=False):
                                  'p1': max(self.lexpos, p0) if self.lexpos >= p0 else self.lexpos, 'tr': tls.tr})
             return w
 
+        rep.traces += cold_preemption(rep, quick, rng)
         long_texts = []
         for i in range(12):
             n = rng.randint(3, 12)
